@@ -64,3 +64,18 @@ Theorem C34_total :
   exists r, job_inputs ff_copy tab dest fields fs0 = Ok r.
 Proof. exact c34_total. Qed.
 Print Assumptions C34_total.
+
+(* the engine later writes `_result.pklz` etc. into the job directory: no staged file has a reserved name, the
+   name is still free after staging, and writing it touches nothing else *)
+Theorem C34_save_safe :
+  forall copy_one, copy_contract copy_one ->
+  forall tab dest fs0 fields outs fs1 av n c,
+    (forall fd f, In fd fields -> is_staged fd = true -> In f (leaves (fd_value fd)) -> ino_of fs0 (snd f) <> None) ->
+    job_inputs copy_one tab dest fields fs0 = Ok (outs, fs1, av) ->
+    In n reserved_names -> ino_of fs0 (dest, n) = None ->
+    ino_of fs1 (dest, n) = None
+    /\ (forall q, q <> (dest, n) -> read (dump fs1 (dest, n) c) q = read fs1 q)
+    /\ forall fd o, In (fd, o) (combine fields outs) -> is_staged fd = true ->
+         forall s d, In (s, d) (pairs_of (fd_value fd) (fst o)) -> snd d <> (dest, n) /\ snd s <> (dest, n).
+Proof. exact c34_save_safe. Qed.
+Print Assumptions C34_save_safe.
